@@ -14,6 +14,7 @@ pub mod props {
     pub mod c02;
     pub mod c04;
     pub mod c05;
+    pub mod c07;
     pub mod c09;
     pub mod c10;
     pub mod c11;
@@ -62,6 +63,7 @@ pub fn dispatch() -> Vec<(&'static str, RunFn, ReplayFn)> {
         ("C04", props::c04::run, props::c04::replay),
         ("C05", props::c05::run_c05, props::c05::replay_c05),
         ("C06", props::c05::run_c06, props::c05::replay_c06),
+        ("C07", props::c07::run_c07, props::c07::replay_c07),
         ("C09", props::c09::run, props::c09::replay),
         ("C10", props::c10::run, props::c10::replay),
         ("C11", props::c11::run, props::c11::replay),
@@ -69,6 +71,7 @@ pub fn dispatch() -> Vec<(&'static str, RunFn, ReplayFn)> {
         ("C14", props::c14::run, props::c14::replay),
         ("C15", props::c15::run, props::c15::replay),
         ("C16", props::c16::run, props::c16::replay),
+        ("C19", props::c07::run_c19, props::c07::replay_c19),
         ("C17", props::c17::run, props::c17::replay),
     ]
 }
